@@ -74,6 +74,21 @@ func probeStrings() []string {
 			}
 		}
 	}
+	// the tail of a longer metric name followed by one of that metric's codes ("A" + "CH" = "AC" + "H")
+	for _, fam := range []string{"v3", "v2"} {
+		for _, d := range defsOf(fam) {
+			for k := 1; k < len(d.Name); k++ {
+				for _, c := range d.Codes {
+					add(d.Name[k:] + c.Code)
+					add(d.Name[k:] + ":" + c.Code)
+				}
+			}
+			for _, c := range d.Codes {
+				add(d.Name + c.Code)
+				add(d.Name + ":" + c.Code)
+			}
+		}
+	}
 	add("XLMH")
 	add("LMH")
 	add("XNALP")
@@ -112,42 +127,46 @@ func cmdTables(args []string) {
 	fs.Parse(args)
 	rec := NewRecorder()
 	probes := probeStrings()
-	for _, mm := range metaMetrics {
-		d := defsOf(mm.Fam)[mm.Idx]
-		if d.Name != mm.Name {
-			die("meta table out of step at %s/%s", mm.Fam, mm.Name)
-		}
-		codes := []string{}
-		for _, c := range d.Codes {
-			codes = append(codes, c.Code)
-		}
-		rec.Add(fmt.Sprintf(`"k":"defs","fam":%q,"idx":%d,"m":%q,"codes":%s`, mm.Fam, mm.Idx, mm.Name, jsonStrs(codes)), "harness tables")
-		for _, s := range probes {
-			got := symOf(mm.Fam, mm.Idx, mm.Get(s))
-			rec.Add(fmt.Sprintf(`"k":"parse","fam":%q,"m":%q,"s":%s,"got":%q`, mm.Fam, mm.Name, jstr(asciiSafe(s)), got), "Get("+s+")")
-		}
-		unknownPred := mm.Pred(0)
-		defd := []string{}
-		for c := -2; c <= 9; c++ {
-			sym := symOf(mm.Fam, mm.Idx, c)
-			rec.Add(fmt.Sprintf(`"k":"print","fam":%q,"m":%q,"c":%q,"str":%s`, mm.Fam, mm.Name, sym, jstr(asciiSafe(mm.Str(c)))), "String()")
-			if sym != "?" && sym[0] != '#' {
-				defd = append(defd, fmt.Sprintf(`[%q,%t]`, sym, mm.Pred(c)))
-				for _, wo := range mm.Weights(c) {
-					w, ex := weightObs(wo.W)
-					ctx := map[string]string{}
-					for _, kv := range strings.Split(wo.Ctx, ",") {
-						if kv != "" {
-							p := strings.SplitN(kv, "=", 2)
-							ctx[p[0]] = p[1]
+	// two passes over all metrics: identical observations merge; a parser whose answer depends on what
+	// was parsed before (of this or another metric) leaves a second, different observation
+	for pass := 0; pass < 2; pass++ {
+		for _, mm := range metaMetrics {
+			d := defsOf(mm.Fam)[mm.Idx]
+			if d.Name != mm.Name {
+				die("meta table out of step at %s/%s", mm.Fam, mm.Name)
+			}
+			codes := []string{}
+			for _, c := range d.Codes {
+				codes = append(codes, c.Code)
+			}
+			rec.Add(fmt.Sprintf(`"k":"defs","fam":%q,"idx":%d,"m":%q,"codes":%s`, mm.Fam, mm.Idx, mm.Name, jsonStrs(codes)), "harness tables")
+			for _, s := range probes {
+				got := symOf(mm.Fam, mm.Idx, mm.Get(s))
+				rec.Add(fmt.Sprintf(`"k":"parse","fam":%q,"m":%q,"s":%s,"got":%q`, mm.Fam, mm.Name, jstr(asciiSafe(s)), got), "Get("+s+")")
+			}
+			unknownPred := mm.Pred(0)
+			defd := []string{}
+			for c := -2; c <= 9; c++ {
+				sym := symOf(mm.Fam, mm.Idx, c)
+				rec.Add(fmt.Sprintf(`"k":"print","fam":%q,"m":%q,"c":%q,"str":%s`, mm.Fam, mm.Name, sym, jstr(asciiSafe(mm.Str(c)))), "String()")
+				if sym != "?" && sym[0] != '#' {
+					defd = append(defd, fmt.Sprintf(`[%q,%t]`, sym, mm.Pred(c)))
+					for _, wo := range mm.Weights(c) {
+						w, ex := weightObs(wo.W)
+						ctx := map[string]string{}
+						for _, kv := range strings.Split(wo.Ctx, ",") {
+							if kv != "" {
+								p := strings.SplitN(kv, "=", 2)
+								ctx[p[0]] = p[1]
+							}
 						}
+						rec.Add(fmt.Sprintf(`"k":"weight","fam":%q,"m":%q,"c":%q,"scope":%q,"base":%q,"ms":%q,"s":%q,"w":%d,"ex":%t`,
+							mm.Fam, mm.Name, sym, ctx["scope"], ctx["base"], ctx["ms"], ctx["s"], w, ex), "Value("+wo.Ctx+")")
 					}
-					rec.Add(fmt.Sprintf(`"k":"weight","fam":%q,"m":%q,"c":%q,"scope":%q,"base":%q,"ms":%q,"s":%q,"w":%d,"ex":%t`,
-						mm.Fam, mm.Name, sym, ctx["scope"], ctx["base"], ctx["ms"], ctx["s"], w, ex), "Value("+wo.Ctx+")")
 				}
 			}
+			rec.Add(fmt.Sprintf(`"k":"pred","fam":%q,"m":%q,"pname":%q,"unknown":%t,"defined":[%s]`, mm.Fam, mm.Name, mm.PredName, unknownPred, strings.Join(defd, ",")), mm.PredName)
 		}
-		rec.Add(fmt.Sprintf(`"k":"pred","fam":%q,"m":%q,"pname":%q,"unknown":%t,"defined":[%s]`, mm.Fam, mm.Name, mm.PredName, unknownPred, strings.Join(defd, ",")), mm.PredName)
 	}
 	// version label parsers / printers
 	verSym := func(c int) string {
